@@ -9,7 +9,7 @@ T = "harness.orch_rel:c14"
 
 
 def case_of(params, model):
-    return dict(K=max(params.get("K", 3), 3), k=params.get("k", 2), maxcor=params.get("maxcor", 2))
+    return dict(K=max(params.get("K", 3), 3), k=params.get("k", 2), maxcor=params.get("maxcor", 2), rewrite=params.get("rewrite_at") is not None)
 
 
 def main(tier, seed):
@@ -23,7 +23,10 @@ def main(tier, seed):
     jobs.append((T, dict(K=1, ls_mode="unit", mode="repeat", jac="2-point")))
     for ipr in (0, 1, 99, 101):
         jobs.append((T, dict(K=2, ls_mode="unit", mode="logging", iprint=ipr)))
+    # logging on/off while update_fun_def rewrites the stored gradients (the history filter logs what it drops)
+    jobs.append((T, dict(K=3, ls_mode="unit", mode="logging", iprint=0, rewrite_at=2, maxcor=2)))
     if tier != "quick":
+        jobs.append((T, dict(K=3, ls_mode="unit", mode="logging", iprint=101, rewrite_at=1, maxcor=2)))
         jobs += [(T, dict(K=2, ls_mode="unit", mode="repeat")), (T, dict(K=2, ls_mode="unit", mode="nested")), (T, dict(K=3, k=2, ls_mode="unit", mode="checkpoint", scaler=1, maxcor=2)),
                  (T, dict(K=3, ls_mode="unit", mode="inputs"))]
         for ipr in (-1, 50, 100):
